@@ -65,7 +65,7 @@ def gen_pair(rng):
     return a, b
 
 
-PREDS = ["none", "nonpersistent", "nothing", "subset"]
+PREDS = ["none", "nonpersistent", "nothing", "subset", "all-but-time"]
 
 
 def make_pred(kind, rng, names):
@@ -76,6 +76,10 @@ def make_pred(kind, rng, names):
         return f, f
     if kind == "nothing":
         f = lambda n: False   # noqa: E731
+        return f, f
+    if kind == "all-but-time":
+        # the caller asks for EVERY clashing name to be renamed, persistent ones included
+        f = lambda n: n not in ("<t>", "<dt>")   # noqa: E731
         return f, f
     chosen = {n for n in names if not is_persistent(n) and rng.random() < 0.5}
     f = lambda n: n in chosen   # noqa: E731
@@ -264,6 +268,11 @@ def structural(d1, d2, fused, pred, rec, wit):
                               f"{pn}: {v!r} of the second method became {w!r}", wit)
                 return True
             # (a loop counter lives only inside its own statement: sharing the name is harmless)
+            if pred is not None and clash and may_rename and is_persistent(v) and w == v:
+                rec.violation("clashing-persistent-name-not-renamed-despite-predicate",
+                              f"{pn}: the predicate asks for {v!r} to be renamed; it is used by both methods and "
+                              f"was left shared", wit)
+                return True
             if clash and may_rename and not is_persistent(v) and w == v and v not in counters:
                 rec.violation("clashing-temporary-not-renamed" + ("" if pred is None else "-despite-predicate"),
                               f"{pn}: temporary {v!r} is used by both methods and was left shared", wit)
@@ -425,7 +434,7 @@ def run_shard(shard, rec):
     rng = random.Random(shard["seed"])
     for i in range(shard["count"]):
         a, b = gen_pair(rng)
-        predkind = PREDS[i % 4] if i % 3 else "none"
+        predkind = PREDS[i % 5] if i % 3 else "none"
         check_pair(a, b, predkind, rng, rec)
         if i % 2 == 0:
             check_pair(a, b, predkind, rng, rec, variant=f"ids:{shard['seed']}:{i}")
